@@ -407,6 +407,26 @@ def allFields (g : Graph) (id : Id) : Except Err (List (Id × Field)) :=
     | .union => allTags g id
     | _ => .error (.dangling id)
 
+/-! ### Specification level: the documented listing of `all_fields` -/
+
+/-- the inheritance chain of a type, root first -/
+def chainUp (g : Graph) : Nat → Id → Except Err (List (Id × Node))
+  | 0, _ => .error .recursion
+  | fuel + 1, id =>
+    match g.node? id with
+    | none => .error (.dangling id)
+    | some nd =>
+      match nd.parent with
+      | some q =>
+        match chainUp g fuel q with
+        | .error e => .error e
+        | .ok up => .ok (up ++ [(id, nd)])
+      | none => .ok [(id, nd)]
+
+/-- the fields of a chain that pass `p`, ancestors first, each with its declaring type -/
+def chainFields (p : Field → Bool) (c : List (Id × Node)) : List (Id × Field) :=
+  c.flatMap (fun x => (x.2.fields.filter p).map (fun f => (x.1, f)))
+
 /-! ## Code level: doc references as `parse_data_types_and_routes_from_doc_ref` reads them -/
 
 /-- One iteration of the `for match in doc_ref_re.finditer(doc)` loop with
@@ -841,6 +861,26 @@ def linearizeDataTypes (g : Graph) (self : String) (ids : List Id) : Except Err 
 /-- `ApiNamespace.linearize_aliases()` -/
 def linearizeAliases (g : Graph) (self : String) (ids : List Id) : Except Err (List Id) :=
   linAll g self (aliasLink g) ids []
+
+/-- side conditions of the linearization theorems (`Props/C02`), decidable: the list names nodes of
+the namespace; a link that stays in the namespace stays in the list -/
+def ownListB (g : Graph) (self : String) (ids : List Id) : Bool :=
+  ids.all fun x =>
+    match g.node? x with
+    | some nd => nd.ns == self
+    | none => false
+
+def linkClosedB (g : Graph) (self : String) (link : Node → Option Id) (ids : List Id) : Bool :=
+  ids.all fun a =>
+    match g.node? a with
+    | none => true
+    | some nd =>
+      match link nd with
+      | none => true
+      | some p =>
+        match g.node? p with
+        | none => true
+        | some np => np.ns != self || ids.contains p
 
 /-! ## Code level: `Api.normalize`, `ApiNamespace.normalize` -/
 
